@@ -33,11 +33,13 @@ struct Echo : public SocketServer
 	}
 };
 
+static void* run_blocking(void* p) { ((SocketServer*)p)->start(false); return 0; }     // scenario 4: the application's own thread runs the accept loop
 static int g_late_h;
 static void* late_closer(void*) { usleep(3500000); vp_cli_close(g_late_h); return 0; }   // native runs only: the silent client gives up after 3.5 s
 // p0 = preemption budget, p1 = number of clients, p2 = sequential mode, p3 = bit mask of clients that close right after sending,
 // p4 = scenario: 0 plain; 1 clients send nothing and close at once (silent); 2 serve() keeps a copy of its Socket;
-//      3 one late client: stop(false), a while later stop(true) while its serve() is still waiting for the token
+//      3 one late client: stop(false), a while later stop(true) while its serve() is still waiting for the token;
+//      4 the accept loop runs in a thread of the application (blocking start()), stop(true) comes from the controlling thread
 extern "C" void h_server(void)
 {
 	vp_sched_budget(vp_param(0));
@@ -50,7 +52,14 @@ extern "C" void h_server(void)
 		srv.setSequential(seq != 0);
 		bool ok = srv.bind("127.0.0.1", vp_srv_port());
 		vp_assume(ok);
-		srv.start(true);
+		pthread_t appthread; bool own = scen == 4;
+		if (own)
+		{
+			pthread_create(&appthread, 0, run_blocking, (SocketServer*)&srv);
+			for (int tries = 0; tries < 5000 && !srv.running(); tries++) usleep(1000);     // until the loop is up
+			vp_assume(srv.running());
+		}
+		else srv.start(true);
 		for (int i = 0; i < n; i++)
 		{
 			byte tok = (byte)i;
@@ -73,6 +82,7 @@ extern "C" void h_server(void)
 		}
 		srv.stop(true);
 		vp_assert(!srv.running(), "running() is false after stop(true)");
+		if (own) pthread_join(appthread, 0);
 		vp_assert((int)g_enter == (int)g_exit, "stop(true) returned while a serve() call was still in flight");
 		entered_at_stop = g_enter;
 		if (scen == 1)
